@@ -283,7 +283,7 @@ PROPS = {
     },
     "C06": {
         "gens": ["C06"],
-        "rule": "values with two / three string and byte bodies at every alignment around the first two COBS block boundaries (`cobsval`, `sercap cobs`); `cobsspec <msg>` (real Cobs<AllocVec> vs Spec.cobsEncode ++ [0]) for ALL messages of length <= 6 (9 in thorough) over {00,01,02,FF}, run lengths 253..255/507..509/761..763 with zeros around them, random messages; `cobsenc` through the public Flavor API of Cobs<Slice|HVec|AllocVec> incl. too-small storage; `cobsval` (to_slice_cobs/to_vec_cobs/to_allocvec_cobs/to_stdvec_cobs agree, frame has one zero, decodes back); `cobsframes` buffers of 1..6 frames with/without last sentinel and with trailing bytes; non-trivial = distinct op line whose message/frame has >= 2 bytes",
+        "rule": "every frame also WITHOUT its sentinel through from_bytes_cobs and take_from_bytes_cobs; values with two / three string and byte bodies at every alignment around the first two COBS block boundaries (`cobsval`, `sercap cobs`); `cobsspec <msg>` (real Cobs<AllocVec> vs Spec.cobsEncode ++ [0]) for ALL messages of length <= 6 (9 in thorough) over {00,01,02,FF}, run lengths 253..255/507..509/761..763 with zeros around them, random messages; `cobsenc` through the public Flavor API of Cobs<Slice|HVec|AllocVec> incl. too-small storage; `cobsval` (to_slice_cobs/to_vec_cobs/to_allocvec_cobs/to_stdvec_cobs agree, frame has one zero, decodes back); `cobsframes` buffers of 1..6 frames with/without last sentinel and with trailing bytes; non-trivial = distinct op line whose message/frame has >= 2 bytes",
         "nontrivial": lambda op, a: len(op) > 14,
         "diff_is_witness": True,
         "exhaustive": {"quick": ["all 5,461 messages of length <= 6 over {00,01,02,FF}"], "thorough": ["all 349,525 messages of length <= 9 over {00,01,02,FF}"]},
@@ -311,7 +311,7 @@ PROPS = {
     "C09": {
         "gens": ["C09"],
         "project": c09_project,
-        "rule": "every history also with feed and feed_ref MIXED on one accumulator; accumulators of capacity 255..1024 with long frames incl. capacities too small for them; (empty chunks are inserted into some histories and handed to feed once); as C08 but with over-long segments, garbage and capacities equal to, one/two less than and one more than the longest segment, and capacities 1 and 2; harness oracle: no panic, loop terminates within 2*len+2 calls, buffer empty after a zero, over-long first segment reported OverFull, fitting frame after a zero delivered intact; non-trivial = distinct op line with >= 2 chunks",
+        "rule": "chunks that OPEN with runs of 1..33 zero bytes while a frame body is pending; unterminated tails that fill the buffer exactly; every history also with feed and feed_ref MIXED on one accumulator; accumulators of capacity 255..1024 with long frames incl. capacities too small for them; (empty chunks are inserted into some histories and handed to feed once); as C08 but with over-long segments, garbage and capacities equal to, one/two less than and one more than the longest segment, and capacities 1 and 2; harness oracle: no panic, loop terminates within 2*len+2 calls, buffer empty after a zero, over-long first segment reported OverFull, fitting frame after a zero delivered intact; non-trivial = distinct op line with >= 2 chunks",
         "nontrivial": lambda op, a: op.count(" x") >= 2,
         "diff_is_witness": False,
         "trusted_base": COMMON_TB + [SERDE_TB, "hook CobsAccumulator::verif_buffered exposes buf[..idx]"],
@@ -319,7 +319,7 @@ PROPS = {
     },
     "C10": {
         "gens": ["C10"],
-        "rule": "(for the two 32-bit algorithms the crate-root wrappers to_slice_crc32 / to_vec_crc32 / to_stdvec_crc32 / to_allocvec_crc32 / from_bytes_crc32 / take_from_bytes_crc32 are cross-checked against the flavour-level entry points in every crcser / crcde op; long str/bytes bodies 15..300 bytes with truncations and tail bit flips); `crcraw` (crc crate vs the Rocksoft bitwise model, 10 catalogue algorithms, widths 8/12/16/32/64/82), `crcser` (to_slice/to_vec/to_allocvec agree; frame = plain ++ LE checksum), `crcde` (valid, extended, every truncation, random damage), `crcdex`: per sampled frame EVERY single-bit flip of the frame and burst patterns <= width at every bit offset of the payload in the algorithm's own bit order must not be accepted with unchanged decoded length; non-trivial = distinct op line",
+        "rule": "`crcio <alg> <scratch> <ty> <frame>`: the deserialising CrcModifier over a BYTE READER (hand-built stack) at every amount of scratch, valid and damaged frames: accepted only if the slice entry point accepts the same frame with the same value; (for the two 32-bit algorithms the crate-root wrappers to_slice_crc32 / to_vec_crc32 / to_stdvec_crc32 / to_allocvec_crc32 / from_bytes_crc32 / take_from_bytes_crc32 are cross-checked against the flavour-level entry points in every crcser / crcde op; long str/bytes bodies 15..300 bytes with truncations and tail bit flips); `crcraw` (crc crate vs the Rocksoft bitwise model, 10 catalogue algorithms, widths 8/12/16/32/64/82), `crcser` (to_slice/to_vec/to_allocvec agree; frame = plain ++ LE checksum), `crcde` (valid, extended, every truncation, random damage), `crcdex`: per sampled frame EVERY single-bit flip of the frame and burst patterns <= width at every bit offset of the payload in the algorithm's own bit order must not be accepted with unchanged decoded length; non-trivial = distinct op line",
         "nontrivial": lambda op, a: True,
         "diff_is_witness": bytes_witness,
         "trusted_base": COMMON_TB + [SERDE_TB, "the crc 3.4 crate is MODELLED as the Rocksoft parametric bitwise algorithm (pinned to crc-catalog check values by kernel-evaluated examples, compared with the crate each run)", "the de CrcModifier is modelled method by method (Model/CrcDe.lean) and PROVED equal to the derived list-level model (takeFromBytesCrcG_eq); crc::Digest::update over a slice = byte by byte is MODELLED"],
@@ -348,7 +348,7 @@ PROPS = {
     "C19": {
         "gens": ["C19"],
         "project": c19_project,
-        "rule": "scale schemas (depth to 257 / 300, width to 257 / 513); (the `fmt` answer also carries `fmt::is_prim`, compared with the model's isPrim); `fmt <schema>` (to_pseudocode / Display, compared as bytes) and `discover <schema>` (all_used_types as a sorted list) on every node kind incl. usize/isize/schema, array-vs-tuple cases, random trees; oracle: no panic, set contains the schema itself, rendering mentions every declared name; non-trivial = distinct op line",
+        "rule": "names that look like generic instantiations (`Result<T, E>`), with braces, commas, quotes; scale schemas (depth to 257 / 300, width to 257 / 513); (the `fmt` answer also carries `fmt::is_prim`, compared with the model's isPrim); `fmt <schema>` (to_pseudocode / Display, compared as bytes) and `discover <schema>` (all_used_types as a sorted list) on every node kind incl. usize/isize/schema, array-vs-tuple cases, random trees; oracle: no panic, set contains the schema itself, rendering mentions every declared name; non-trivial = distinct op line",
         "nontrivial": lambda op, a: True,
         "diff_is_witness": False,
         "trusted_base": COMMON_TB + ["HashSet is MODELLED as a duplicate-free list compared after sorting", "String formatting of usize MODELLED as decimal digits"],
@@ -356,7 +356,7 @@ PROPS = {
     },
     "C04": {
         "gens": ["C04"],
-        "rule": "`deseq`: ONE Deserializer::from_flavor(IOReader / EIOReader) decodes several values and is used AGAIN after a value failed (scratch exhausted, fault, malformed), then finalized - compared up to the first error, afterwards borrowed slots and the returned scratch must stay inside the buffer (guard pages) and disjoint; (the C03 stream incl. its scale cases under guard pages; the `alloc` op additionally runs each concrete heap type through 8 framed decoders - five CRC widths incl. the crate-root crc32 wrappers, from_bytes_cobs, take_from_bytes_cobs - under the counting allocator); `deg <type> <bytes>`: the C03 adversarial stream (subsampled) decoded with the input copied flush against PROT_NONE pages on the right and on the left (a read outside the input is a SIGSEGV attributed to the op line), through the slice path and the reader path (scratch buffer also guarded, three scratch sizes), with every borrowed str/bytes checked to lie inside the input right after its length prefix, ordered and disjoint, and every sequence size hint <= input length; `alloc <concrete type> <bytes>`: 10 heap-allocating Rust types (Vec<u8/u64/u128>, String, Vec<String>, Vec<Vec<u16>>, ...) decoded from adversarial length prefixes up to u64::MAX under a counting allocator with bound K_T*len+1024; any/identifier/ignored requests; non-trivial = distinct op line with >= 1 input byte",
+        "rule": "the `alloc` table includes OwnedBytes (a visitor that asks for deserialize_byte_buf); `deseq`: ONE Deserializer::from_flavor(IOReader / EIOReader) decodes several values and is used AGAIN after a value failed (scratch exhausted, fault, malformed), then finalized - compared up to the first error, afterwards borrowed slots and the returned scratch must stay inside the buffer (guard pages) and disjoint; (the C03 stream incl. its scale cases under guard pages; the `alloc` op additionally runs each concrete heap type through 8 framed decoders - five CRC widths incl. the crate-root crc32 wrappers, from_bytes_cobs, take_from_bytes_cobs - under the counting allocator); `deg <type> <bytes>`: the C03 adversarial stream (subsampled) decoded with the input copied flush against PROT_NONE pages on the right and on the left (a read outside the input is a SIGSEGV attributed to the op line), through the slice path and the reader path (scratch buffer also guarded, three scratch sizes), with every borrowed str/bytes checked to lie inside the input right after its length prefix, ordered and disjoint, and every sequence size hint <= input length; `alloc <concrete type> <bytes>`: 10 heap-allocating Rust types (Vec<u8/u64/u128>, String, Vec<String>, Vec<Vec<u16>>, ...) decoded from adversarial length prefixes up to u64::MAX under a counting allocator with bound K_T*len+1024; any/identifier/ignored requests; non-trivial = distinct op line with >= 1 input byte",
         "nontrivial": lambda op, a: not op.endswith(" x"),
         "project": lambda op, a: io_project(op, _c03_project_keep_wont(op, a)),
         "equiv": io_equiv,
